@@ -7,6 +7,7 @@ from .. import lasobj as lo
 
 ID = "C03"
 MODULE = "LasioProofs.Props.C03"
+EXTRA_MODULES = ["LasioProofs.Props.C01File"]
 RULE = ("LASFile objects built from specs (default ~Version/~Well items plus 0..6 generated items per section: duplicate, blank and "
         "case-variant mnemonics, int/float/numpy/text/numeric-text/empty/None values, empty-with-unit, fields over letters, digits, "
         "punctuation, quotes, brackets, non-ASCII letters, one item made the widest of its section in each column) x version {1.2, 2.0} "
@@ -535,6 +536,6 @@ LEVEL_TEXT = ("Machine-checked Lean 4 theorems about an executable model of the 
               "(C03_section), standardize_value is idempotent, splitlines/join is the identity on normal-form ~Other text. Tie: byte-exact "
               "differential comparison of the compiled model with las.write and with the real section parser, and the property's oracle "
               "through lasio.read.")
-LEVEL_NOTE = ("num() is not part of this model (values are raw text; the oracle applies the real num). The reader's section finding / ~Other "
+LEVEL_NOTE = ("Whole file including the data section and the steering values: Props/C01File.lean (C01_file). num() is not part of this model (values are raw text; the oracle applies the real num). The reader's section finding / ~Other "
               "collection is covered by the oracle only. Forced hypothesis: mnemonic not starting with '#'/'~'. The order lookup is the two-step "
               "(exact, then upper-cased) one of both reader and writer; C03_case_stable proves they agree under every mnemonic_case.")
